@@ -49,9 +49,10 @@ def strategy(tier):
                               min_size=1, max_size=16 if big else 8).map(
                                   lambda fr: [o for f in fr for o in (f if isinstance(f, list) else [f])][:24]),
             "rest": histories(tier, max_ops=12 if big else 6, batches=True, aborts=True,
-                              near_weight=4),
+                              near_weight=4, looks=1),
             "exc": st.integers(0, 2),
             "in_handler": st.booleans(),
+            "sparse": st.booleans(),
         }
     )
 
@@ -143,7 +144,8 @@ def _run_exit_inner(case, exit_kind, exit_arg, info):
     # case gets the full per-step oracles)
     checks = {"map", "root"} | ({"prune"} if prune else set())
     if exit_kind == "commit" or (exit_kind == "abort" and exit_arg == 0):
-        run_history(None, checks, info, state=(trie, db, model), ops=case["rest"])
+        run_history(None, checks, info, state=(trie, db, model), ops=case["rest"],
+                    sparse=bool(case.get("sparse")))
     else:
         play(trie, model, case["rest"])
         run_history(None, checks, info, state=(trie, db, model), ops=[])
